@@ -67,12 +67,12 @@ def run(ck):
     ck.rule = "translator validation at random float64 points; oracle: even frames 42/46/50 (N mod 4 = 2) and 48/56 (N mod 4 = 0), six extended/composite profile types, three renderers, asymmetric well-sampled PSFs (FWHM 4 px)"
     ck.trusted += ["Coq 8.16.1 kernel; Interval; Reals axioms", "translator unit Formulas (validated numerically each run)",
                    "lifting of the pointwise laws to images: proved for the convolution step under whole-pixel translation and transposition (circular convolution, Proofs/ConvSymmetry.v; C03 proves "
-                   "that the FFT product computes it); NOT proved for the mirror (the X -> N-1-X reflection is the group negation composed with a one-pixel shift that the PSF centring "
-                   "absorbs) nor for the Nyquist remainder of the band-limited Fourier kernels at even N: covered only by the implementation-side oracle"]
+                   "that the FFT product computes it); and under the mirror X -> N-1-X with the stamp mirrored about its own centre column (Proofs/ConvChain.v, odd stamps, centred form of the convolution); NOT proved for "
+                   "the Nyquist remainder of the band-limited Fourier kernels at even N: covered only by the implementation-side oracle"]
     ck.explanation = ("Proved pointwise for all parameters, for the analytic Sersic kernel, the real-space Gaussians and the Fourier Gaussians: theta+pi invariance; independence of theta at ellip=0 (q=1); "
                       "transpose (swap axes and centre, theta->pi/2-theta); mirror (X->N-1-X, xc->N-1-xc, theta->-theta; in Fourier space FX->-FX); translation (real-space kernels move, Fourier "
                       "components pick up exp(-2 pi i (FX da + FY db))); theta+k*pi for every k.  Image level: for every N and all arrays, circular convolution with the PSF commutes with "
-                      "whole-pixel translations of the scene and with transposition of scene and PSF.")
+                      "whole-pixel translations of the scene, with transposition of scene and PSF, and with the mirror of scene and (odd) PSF stamp.")
     if ck.broken():
         if oracle_bad:
             c, r = oracle_bad[0]
